@@ -1070,12 +1070,14 @@ namespace bxdecay0 {
                           tdlev);
       goto level_0000;
     } else if (pgamma <= 5.57) {
+      // The 16.37 keV transition lies below the mean L binding energy used elsewhere (18.264 keV, which gave the
+      // conversion electron a negative energy and NaN momenta): L conversion is only possible on the L3 subshell (15.871 keV)
       decay0_nucltransKLM(prng_,
                           event_,
                           0.016370,
                           AcElectronBindingEnergyK,
                           0.0,
-                          AcElectronBindingEnergyL,
+                          0.015871,
                           5.06,
                           AcElectronBindingEnergyM,
                           2.68,
